@@ -56,3 +56,7 @@ CHECKS['C08'] = ('exploration',
     'bounded exhaustive enumeration: 19 grammars (core language, every @meta, $->, skip-to, named, left recursion, lookaheads, upper-case rules, whitespace variants incl. an empty-matching pattern, constants/alerts, joins) x ALL strings of length <= 3/4 over a 12-character hostile alphabet plus targeted numeric/boolean/unicode inputs x {str, Buffer} x parseinfo on/off; and the complete single-edit neighbourhood (deletions, 31 metacharacter insertions per position, transpositions) of 8 seed grammars as compile input; every outcome must be a value or a TatSu exception with a consistent, renderable location, under a watchdog',
     'trusted: watchdog (3 s parse / 20 s compile) and the interpreter recursion limit as observers of non-termination; the independent line splitter for locations',
     'exhaustive enumeration of bounded input spaces and complete edit neighbourhoods (fault enumeration on inputs)')
+CHECKS['C10'] = ('model_checking',
+    'histories: explicit enumeration of every API call sequence of length <= 2 over 19 calls (compile/parse/tatsu.parse/codegen/generated parser/persistent model with asmodel, semantics, name, ignorecase, start, failing inputs, a second grammar reusing a class name) and length 3 over 9 (quick) / all 19 (thorough) calls, each history in a pristine forked child and each call compared with the same call run first; model and config snapshots before/after parses; schedules: stateless exploration under a baton thread scheduler (sys.settrace line events in the functions that touch shared state) of 2-3 threads parsing on one shared never-optimised model, all interleavings up to 2 preemptions, each compared with the sequential result',
+    'trusted: forked child of an interpreter that only imported tatsu = fresh process; the whitelist of functions with shared state; preemption bound 2',
+    'explicit-state exploration of API histories + stateless preemption-bounded schedule exploration on the real code')
